@@ -5,6 +5,7 @@ mod sched;
 mod blocking;
 mod aread;
 mod awrite;
+mod framed;
 
 use g_codec::total;
 use vcore::engine::{CaseResult, Kind, Stats, Sub};
@@ -80,11 +81,13 @@ fn subs() -> Vec<Sub> {
     }
     v.extend(aread::subs());
     v.extend(awrite::subs());
+    v.extend(framed::subs());
     v
 }
 
 fn assumptions(p: &str) -> Vec<String> {
     match p {
+        "C04F" => vec!["typed decoding through the frame readers: the value types are u64, String, ByteVec and a derived 4-field struct; the source is always ready (fragmentation and scheduling are C14/C15's business)".into()],
         "C14" => vec!["the scripted io::Read honours the std contract (returns <= buf.len(), Ok(0) only at end of data)".into(), "reader allocation bound: 3*len + 4 KiB for an accepted frame (Vec growth + decoded value), 4 KiB for a refused one".into()],
         "C15" | "C16" => vec![
             "futures are polled by hand with a no-op waker; the transports' outcomes and the caller's keep-polling/drop decisions are the schedule (generated)".into(),
